@@ -1,7 +1,97 @@
-import TetlProofs.C17.Lemmas
+/-
+C17 — property theorems.  `Rep N k ws f` (Lemmas.lean): the word array `ws` of a
+`basic_bitset<N, 2^k-bit word>` has `num_words` words, shows the abstract bitset `f` at the positions
+`< N` and has every padding bit zero.  Each theorem says: on a represented state and arguments that
+satisfy the documented precondition, the member returns `.ok` (no out-of-range word access, no
+over-wide shift, no failed contract), re-establishes `Rep` (padding included) and computes what
+`std::bitset` specifies.  All of them hold for every `N ≥ 1` and every `k` (word width `2^k`).
+-/
+import TetlProofs.C17.BitOps
 namespace Tetl.C17.Props
 open Tetl Tetl.C17
 
-theorem init_length (N k : Nat) : (init N k).length = numWords N k := by simp [init]
+/-! ## construction -/
+
+/-- default construction: all bits zero -/
+theorem init_rep (N k : Nat) : Rep N k (init N k) Spec.zero := by
+  refine ⟨by simp [init], fun i => ?_⟩
+  simp only [bitAt, init, List.getElem?_replicate, Spec.zero, Bool.and_false]
+  split <;> rename_i h
+  · split at h
+    · cases h; simp
+    · cases h
+  · rfl
+
+/-! ## single-bit members -/
+
+theorem uncheckedSet_rep {N k : Nat} {ws : Words k} {f : Spec.Bits} (h : Rep N k ws f) (pos : Nat) (hp : pos < N)
+    (v : Bool) : ∃ ws', uncheckedSet N ws pos v = .ok ws' ∧ Rep N k ws' (Spec.set1 f pos v) := by
+  simp only [uncheckedSet, hp, if_true]
+  exact transformBit_spec N ws f h pos hp _ (fun _ => v) (hop_setBitTo pos v)
+
+theorem uncheckedReset_rep {N k : Nat} {ws : Words k} {f : Spec.Bits} (h : Rep N k ws f) (pos : Nat) (hp : pos < N) :
+    ∃ ws', uncheckedReset N ws pos = .ok ws' ∧ Rep N k ws' (Spec.set1 f pos false) := by
+  simp only [uncheckedReset, hp, if_true]
+  exact transformBit_spec N ws f h pos hp _ (fun _ => false) (hop_resetBit pos)
+
+theorem uncheckedFlip_rep {N k : Nat} {ws : Words k} {f : Spec.Bits} (h : Rep N k ws f) (pos : Nat) (hp : pos < N) :
+    ∃ ws', uncheckedFlip N ws pos = .ok ws' ∧ Rep N k ws' (Spec.flip1 f pos) := by
+  simp only [uncheckedFlip, hp, if_true]
+  obtain ⟨ws', h1, h2⟩ := transformBit_spec N ws f h pos hp _ (fun b => !b) (hop_flipBit pos)
+  exact ⟨ws', h1, h2.congr (fun i _ => by by_cases e : i = pos <;> simp [Spec.flip1, e])⟩
+
+/-- `bitset::set(pos, value)` -/
+theorem set_rep {N k : Nat} {ws : Words k} {f : Spec.Bits} (h : Rep N k ws f) (pos : Nat) (hp : pos < N) (v : Bool) :
+    ∃ ws', set N ws pos v = .ok ws' ∧ Rep N k ws' (Spec.set1 f pos v) := by
+  simp only [set, hp, if_true]; exact uncheckedSet_rep h pos hp v
+
+/-- `bitset::reset(pos)` -/
+theorem reset_rep {N k : Nat} {ws : Words k} {f : Spec.Bits} (h : Rep N k ws f) (pos : Nat) (hp : pos < N) :
+    ∃ ws', reset N ws pos = .ok ws' ∧ Rep N k ws' (Spec.set1 f pos false) := by
+  simp only [reset, hp, if_true]; exact uncheckedReset_rep h pos hp
+
+/-- `bitset::flip(pos)` -/
+theorem flip_rep {N k : Nat} {ws : Words k} {f : Spec.Bits} (h : Rep N k ws f) (pos : Nat) (hp : pos < N) :
+    ∃ ws', flip N ws pos = .ok ws' ∧ Rep N k ws' (Spec.flip1 f pos) := by
+  simp only [flip, hp, if_true]; exact uncheckedFlip_rep h pos hp
+
+/-- `b[pos] = x` through the proxy reference -/
+theorem refAssign_rep {N k : Nat} {ws : Words k} {f : Spec.Bits} (h : Rep N k ws f) (pos : Nat) (hp : pos < N)
+    (x : Bool) : ∃ ws', refAssign N ws pos x = .ok ws' ∧ Rep N k ws' (Spec.set1 f pos x) := by
+  simp only [refAssign, hp, if_true]
+  exact rmw_spec N ws f h pos hp (fun w b => setBitTo w b x) (fun _ => x) (hop_setBitTo pos x)
+
+/-- `b[pos].flip()` through the proxy reference -/
+theorem refFlip_rep {N k : Nat} {ws : Words k} {f : Spec.Bits} (h : Rep N k ws f) (pos : Nat) (hp : pos < N) :
+    ∃ ws', refFlip N ws pos = .ok ws' ∧ Rep N k ws' (Spec.flip1 f pos) := by
+  simp only [refFlip, hp, if_true]
+  obtain ⟨ws', h1, h2⟩ := rmw_spec N ws f h pos hp flipBit (fun b => !b) (hop_flipBit pos)
+  exact ⟨ws', h1, h2.congr (fun i _ => by by_cases e : i = pos <;> simp [Spec.flip1, e])⟩
+
+/-! ## single-bit observers -/
+
+theorem uncheckedTest_eq {N k : Nat} {ws : Words k} {f : Spec.Bits} (h : Rep N k ws f) (pos : Nat) (hp : pos < N) :
+    uncheckedTest N ws pos = .ok (Spec.test f pos) := by
+  simp only [uncheckedTest, hp, if_true]; exact readBit_spec N ws f h pos hp
+
+/-- `bitset::test(pos)` -/
+theorem test_eq {N k : Nat} {ws : Words k} {f : Spec.Bits} (h : Rep N k ws f) (pos : Nat) (hp : pos < N) :
+    test N ws pos = .ok (Spec.test f pos) := by
+  simp only [test, hp, if_true]; exact uncheckedTest_eq h pos hp
+
+/-- `operator[](pos) const` -/
+theorem getConst_eq {N k : Nat} {ws : Words k} {f : Spec.Bits} (h : Rep N k ws f) (pos : Nat) (hp : pos < N) :
+    getConst N ws pos = .ok (Spec.test f pos) := by
+  simp only [getConst, hp, if_true]; exact uncheckedTest_eq h pos hp
+
+/-- `bool(b[pos])` through the proxy reference -/
+theorem refGet_eq {N k : Nat} {ws : Words k} {f : Spec.Bits} (h : Rep N k ws f) (pos : Nat) (hp : pos < N) :
+    refGet N ws pos = .ok (Spec.test f pos) := by
+  simp only [refGet, hp, if_true]; exact readBit_spec N ws f h pos hp
+
+/-- `~b[pos]` through the proxy reference -/
+theorem refNot_eq {N k : Nat} {ws : Words k} {f : Spec.Bits} (h : Rep N k ws f) (pos : Nat) (hp : pos < N) :
+    refNot N ws pos = .ok (!Spec.test f pos) := by
+  simp [refNot, refGet_eq h pos hp]
 
 end Tetl.C17.Props
